@@ -502,8 +502,36 @@ Qed.
 (* ------------------------------------------------------------------ *)
 (* only the "everybody" rooms matter for is_connected / sid_from_eio / all_sids:
    distinct namespace keys, one None room per namespace, distinct sids in it *)
+(* distinct sids and distinct transports inside the everybody room *)
+Definition bd_ok (b : bidict) : Prop := NoDup (map fst b) /\ NoDup (map snd b).
+Lemma bd_ok_nil : bd_ok []. Proof. split; constructor. Qed.
+Lemma svals_adel {K} (eqb : K -> K -> bool) (l : list (K * str)) k :
+  NoDup (map snd l) -> NoDup (map snd (adel eqb l k)).
+Proof.
+  induction l as [|[k' v'] l IH]; cbn [adel map snd]; intro H; [exact H|].
+  inversion H as [|? ? Hnot Hnd]; subst.
+  destruct (eqb k' k); [exact Hnd|]. cbn [map snd]. constructor; [|exact (IH Hnd)].
+  intro Hin. apply Hnot. apply in_map_iff in Hin as (x & Hx & Hin). apply in_map_iff.
+  exists x. split; [exact Hx|]. exact (in_adel _ _ _ _ Hin).
+Qed.
+Lemma svals_aset (l : bidict) k v :
+  NoDup (map snd l) -> ~ In v (map snd l) -> NoDup (map snd (aset str_eqb l k v)).
+Proof.
+  induction l as [|[k' v'] l IH]; cbn [aset map snd]; intros H Hv; [repeat constructor; intros []|].
+  inversion H as [|? ? Hnot Hnd]; subst.
+  destruct (str_eqb k' k); cbn [map snd].
+  - constructor; [intro; apply Hv; right; assumption|exact Hnd].
+  - constructor; [|apply IH; [exact Hnd|intro; apply Hv; right; assumption]].
+    intro Hin. apply in_map_iff in Hin as (x & Hx & Hin).
+    destruct (in_aset _ _ _ _ _ Hin) as [H1|H1].
+    + apply Hnot. rewrite <- Hx. apply in_map. exact H1.
+    + apply Hv. left. congruence.
+Qed.
+Lemma bd_ok_adel b sid : bd_ok b -> bd_ok (adel str_eqb b sid).
+Proof. intros [H1 H2]. split; [apply skeys_adel; exact H1|apply svals_adel; exact H2]. Qed.
+
 Definition rm_ok1 (rm : roommap) : Prop :=
-  none_once rm /\ forall b, none_bd rm = Some b -> NoDup (map fst b).
+  none_once rm /\ forall b, none_bd rm = Some b -> bd_ok b.
 Definition MOK (m : mgr) : Prop :=
   NoDup (map fst (rooms m)) /\ forall ns rm, In (ns, rm) (rooms m) -> rm_ok1 rm.
 
@@ -597,8 +625,8 @@ Proof.
     + split; [split; [apply none_once_adel; exact Hno|]|split; [congruence|]].
       * intros b0 H0. rewrite none_bd_adel_none in H0 by exact Hno. discriminate.
       * intros _ b0 H0. rewrite none_bd_adel_none in H0 by exact Hno. discriminate.
-    + assert (Hk : NoDup (map fst (x :: r))) by (rewrite <- Hd; apply skeys_adel; exact Hnd).
-      assert (Hg : bd_get (x :: r) sid = None) by (rewrite <- Hd; apply saget_adel_same; exact Hnd).
+    + assert (Hk : bd_ok (x :: r)) by (rewrite <- Hd; apply bd_ok_adel; exact Hnd).
+      assert (Hg : bd_get (x :: r) sid = None) by (rewrite <- Hd; apply saget_adel_same; exact (proj1 Hnd)).
       split; [split; [apply none_once_aset; exact Hno|]|split; [congruence|]].
       * intros b0 H0. rewrite none_bd_aset_none in H0. inversion H0; subst. exact Hk.
       * intros _ b0 H0. rewrite none_bd_aset_none in H0. inversion H0; subst. exact Hg.
@@ -815,6 +843,19 @@ Proof.
   intro Hm. unfold pm_rm. destruct (ns_rooms m ns) eqn:H; [eapply MOK_ns; eassumption|apply rm_ok1_nil].
 Qed.
 
+Lemma bd_inv_none_vals b eio : bd_inv b eio = None -> ~ In eio (map snd b).
+Proof.
+  induction b as [|[s e] b IH]; cbn [bd_inv map snd]; [intros _ []|].
+  destruct (str_eqb e eio) eqn:E; [discriminate|]. intros H [H1|H1]; [|exact (IH H H1)].
+  subst. rewrite str_eqb_refl in E. discriminate.
+Qed.
+Lemma bd_put_ok b sid eio b' : bd_put b sid eio = Some b' -> bd_ok b -> bd_ok b'.
+Proof.
+  unfold bd_put. destruct (bd_inv b eio) as [s'|] eqn:Hi.
+  - destruct (str_eqb s' sid); [|discriminate]. intro H; inversion H; subst. tauto.
+  - intro H; inversion H; subst. intros [H1 H2]. split; [apply skeys_aset; exact H1|].
+    apply svals_aset; [exact H2|apply bd_inv_none_vals; exact Hi].
+Qed.
 Lemma bd_put_keys b sid eio b' : bd_put b sid eio = Some b' -> NoDup (map fst b) -> NoDup (map fst b').
 Proof.
   unfold bd_put. destruct (bd_inv b eio) as [s'|].
@@ -823,7 +864,7 @@ Proof.
 Qed.
 
 Lemma rm_ok1_aset rm room b :
-  rm_ok1 rm -> (room = PNone -> NoDup (map fst b)) -> rm_ok1 (aset room_eqb rm room b).
+  rm_ok1 rm -> (room = PNone -> bd_ok b) -> rm_ok1 (aset room_eqb rm room b).
 Proof.
   intros [Hno Hnd] Hb. split; [apply none_once_aset; exact Hno|].
   intros b0 H0. destruct (pv_eqb room PNone) eqn:Er.
@@ -832,10 +873,10 @@ Proof.
     rewrite none_bd_aset_other in H0 by exact Hne. exact (Hnd _ H0).
 Qed.
 
-Lemma pm_b_none_keys m ns : MOK m -> NoDup (map fst (pm_b m ns PNone)).
+Lemma pm_b_none_keys m ns : MOK m -> bd_ok (pm_b m ns PNone).
 Proof.
   intro Hm. unfold pm_b. destruct (rm_ok1_pm_rm m ns Hm) as [_ Hnd].
-  fold (none_bd (pm_rm m ns)). destruct (none_bd (pm_rm m ns)) as [b|] eqn:Hb; [exact (Hnd _ eq_refl)|constructor].
+  fold (none_bd (pm_rm m ns)). destruct (none_bd (pm_rm m ns)) as [b|] eqn:Hb; [exact (Hnd _ eq_refl)|apply bd_ok_nil].
 Qed.
 
 Lemma MOK_put_member m ns room sid eio : MOK m -> MOK (fst (put_member m ns room sid eio)).
@@ -843,7 +884,7 @@ Proof.
   intro Hm. rewrite put_member_unfold. cbn [fst]. apply MOK_aset_ns; [exact Hm|].
   apply rm_ok1_aset; [apply rm_ok1_pm_rm; exact Hm|].
   intros ->. pose proof (pm_b_none_keys m ns Hm) as Hk.
-  destruct (bd_put (pm_b m ns PNone) sid eio) as [b'|] eqn:Hp; [eapply bd_put_keys; eassumption|exact Hk].
+  destruct (bd_put (pm_b m ns PNone) sid eio) as [b'|] eqn:Hp; [eapply bd_put_ok; eassumption|exact Hk].
 Qed.
 
 Lemma put_member_frame m ns room sid eio :
